@@ -4,6 +4,8 @@ import (
 	"context"
 	"time"
 
+	"github.com/sirupsen/logrus"
+
 	"github.com/atlassian/gostatsd"
 	"github.com/atlassian/gostatsd/pkg/stats"
 )
@@ -420,3 +422,99 @@ func VerifC01_Twin() {
 	verifC01Pipeline(2, 2)
 	verifAssert(false, "twin-false")
 }
+
+// verifC01Full: the whole standalone ingest path as goroutines - np real DatagramParser.Run
+// loops (real lexer, MetricMap.Receive) reading batches of datagrams from the receiver channel,
+// the real BackendHandler with nw aggregator workers, and the real flushData - under the
+// engine's scheduler. Datagrams are generated from symbolic pieces: one or two counter lines
+// `a:<d>|c` / `b:<d>|c|@.5` (digit 3 or 7, rate optional). The harness sends `steps`
+// commands {datagram batch | flush} without waiting for the parsers, then settles and flushes
+// twice: summed over all flushes a counter's total equals the sum of trunc(value/rate), nothing
+// is reported for a series never sent, no series twice in a flush.
+func verifC01Full(np, nw, steps int) {
+	be := &verifSumBackend{}
+	af := AggregatorFactoryFunc(func() Aggregator {
+		a := NewMetricAggregator(nil, 0, 0, 0, 0, gostatsd.TimerSubtypes{}, 0)
+		a.now = func() time.Time { return time.Unix(100, 0) }
+		return a
+	})
+	// the script is drawn before any goroutine starts
+	type cmd struct {
+		flush bool
+		lines int
+		name  [2]int
+		digit [2]byte
+		rated [2]bool
+	}
+	script := make([]cmd, steps)
+	for s := range script {
+		c := &script[s]
+		c.flush = nondetBool()
+		if c.flush {
+			continue
+		}
+		c.lines = nondetIntIn(1, 2)
+		// first line symbolic (name, digit 3 or 7 - parsing symbolic numbers is C02's subject -,
+		// rate or not); an optional second line is always `b:3|c|@.5`
+		c.name[0] = nondetIntIn(0, 1)
+		c.digit[0] = '3'
+		if nondetBool() {
+			c.digit[0] = '7'
+		}
+		c.rated[0] = nondetBool()
+		c.name[1], c.digit[1], c.rated[1] = 1, '3', true
+	}
+	qs := nondetIntIn(0, 1)
+	bh := NewBackendHandler([]gostatsd.Backend{be}, 1, nw, qs, af)
+	ctx, cancel := context.WithCancel(context.Background())
+	defer cancel()
+	for _, w := range bh.workers {
+		go w.work()
+	}
+	in := make(chan []*Datagram)
+	for p := 0; p < np; p++ {
+		dp := NewDatagramParser(in, "", true, 0, bh, 0, false, logrus.StandardLogger())
+		go dp.Run(ctx)
+	}
+	fl := NewMetricFlusher(10*time.Second, 0, false, bh, []gostatsd.Backend{be})
+	verifSettle()
+	var sent verifAcct
+	for _, c := range script {
+		if c.flush {
+			be.inFlush = map[string]bool{}
+			fl.flushData(ctx, 10*time.Second, stats.NewNullStatser())
+			verifReach("flush")
+			continue
+		}
+		var msg []byte
+		for j := 0; j < c.lines; j++ {
+			msg = append(msg, verifNames[c.name[j]]...)
+			msg = append(msg, ':', c.digit[j], '|', 'c')
+			v := int64(c.digit[j] - '0')
+			if c.rated[j] {
+				msg = append(msg, '|', '@', '.', '5')
+				v *= 2 // trunc(v / 0.5)
+			}
+			msg = append(msg, '\n')
+			sent.counter[c.name[j]][0] += v
+			sent.seenC[c.name[j]][0] = true
+		}
+		in <- []*Datagram{{IP: "1.2.3.4", Msg: msg, Timestamp: 5, DoneFunc: func() {}}}
+		verifReach("datagram")
+	}
+	verifSettle()
+	for k := 0; k < 2; k++ {
+		be.inFlush = map[string]bool{}
+		fl.flushData(ctx, 10*time.Second, stats.NewNullStatser())
+	}
+	for ni := 0; ni < 2; ni++ {
+		verifAssert(be.total.counter[ni][0] == sent.counter[ni][0], "summed over all flushes a counter equals the sum of trunc(value/rate) of its datapoints")
+		verifAssert(be.total.seenC[ni][0] == sent.seenC[ni][0], "a series is reported iff it was sent")
+		verifAssert(!be.total.seenC[ni][1], "nothing is reported for a series that was never sent")
+	}
+	verifAssert(!be.dup, "a series is reported twice within one flush")
+	verifReach("full-done")
+}
+
+func VerifC01_Full_1_1_2() { verifC01Full(1, 1, 2) }
+func VerifC01_Full_2_2_3() { verifC01Full(2, 2, 3) }
